@@ -48,6 +48,13 @@ static CV: Condvar = Condvar::new();
 thread_local! { static ME: Cell<usize> = Cell::new(0); }
 
 static ALLOWED: Mutex<Option<Vec<&'static str>>> = Mutex::new(None);
+static WAIT_SECS: std::sync::atomic::AtomicU64 = std::sync::atomic::AtomicU64::new(30);
+
+/// how long a thread waits for its turn before the run counts as diverged (default 30 s; a position search that expects
+/// some positions to block on a real lock uses a shorter wait)
+pub fn set_wait_secs(s: u64) {
+    WAIT_SECS.store(s, std::sync::atomic::Ordering::SeqCst);
+}
 
 pub fn install(sched: Vec<usize>) {
     *STATE.lock().unwrap() = Some(State { sched, pos: 0, finished: vec![], diverged: false });
@@ -106,7 +113,7 @@ fn hook(what: &'static str) {
             CV.notify_all();
             return;
         }
-        let (ng, to) = CV.wait_timeout(g, Duration::from_secs(30)).unwrap();
+        let (ng, to) = CV.wait_timeout(g, Duration::from_secs(WAIT_SECS.load(std::sync::atomic::Ordering::SeqCst))).unwrap();
         g = ng;
         if to.timed_out() {
             g.as_mut().unwrap().diverged = true;
